@@ -476,7 +476,10 @@ class SoftwareSwitchBase (object):
     err = ofp_error(type=type, code=code)
     if ofp:
       err.xid = ofp.xid
-      err.data = ofp.pack()
+      # Quote the message as it was received if we know that (re-creating it
+      # can fail for things we wouldn't send ourselves)
+      err.data = getattr(ofp, '_received_as', None)
+      if err.data is None: err.data = ofp.pack()
     else:
       err.xid = 0
     if data is not None:
@@ -1215,6 +1218,7 @@ class OFConnection (object):
 
       io_worker.consume_receive_buf(message_length)
       self.starting = False
+      msg_obj._received_as = bytes(message[:message_length])
 
       if self.on_message_received is None:
         raise RuntimeError("on_message_receieved hasn't been set yet!")
